@@ -2,7 +2,7 @@
    Only statements + `exact` + Print Assumptions live here. Model: C16_Defs (imports the kernels
    translated from include/nano/tensor/{dims,tensor}.h on every run). *)
 From Coq Require Import List ZArith Bool.
-From LN Require Import C16_Defs C16_Statements C16_Integral.
+From LN Require Import C16_Defs C16_Statements C16_Integral C16_StorageDefs C16_Storage.
 Import ListNotations.
 Local Open Scope Z_scope.
 
@@ -97,6 +97,47 @@ Theorem C16_integral_prefix_sums : forall d flat i,
   nth (Z.to_nat (offset d i)) (integral d flat) 0 = naive_integral_at d flat i.
 Proof. exact integral_is_prefix_sums. Qed.
 Print Assumptions C16_integral_prefix_sums.
+
+(* ---- storage conversions (include/nano/tensor/storage.h; model C16_StorageDefs: heap of buffers, a freed buffer reads None) ---- *)
+(* owning := view (tensor_vector_storage_t::operator=(const map&)) for EVERY heap and every readable view -- also a view into
+   the destination's own buffer, of any offset and size: the destination ends up with exactly the viewed elements and the
+   view's dims, and storages over other buffers are untouched *)
+Theorem C16_storage_own_assign : forall h dst src d, hread h src = Some d ->
+  exists h' t, own_assign h dst src = Some (h', t) /\ hread h' t = Some d /\ s_dims t = s_dims src /\ s_kind t = KOwn /\
+               (forall s, (s_buf s < length h)%nat -> s_buf s <> s_buf dst -> hread h' s = hread h s).
+Proof. exact own_assign_copies. Qed.
+Print Assumptions C16_storage_own_assign.
+
+(* constructor tensor(view): a fresh buffer (no aliasing) with the viewed elements; every existing storage reads the same *)
+Theorem C16_storage_own_of : forall h src d, hread h src = Some d ->
+  exists h' t, own_of h src = Some (h', t) /\ hread h' t = Some d /\ s_dims t = s_dims src /\ s_kind t = KOwn /\
+               s_buf t <> s_buf src /\ (forall s, (s_buf s < length h)%nat -> hread h' s = hread h s).
+Proof. exact own_of_copies. Qed.
+Print Assumptions C16_storage_own_of.
+
+(* mapping / constant-mapping storages alias: they show the same elements as their source in every heap *)
+Theorem C16_storage_views_alias : forall h k s, hread h (map_of k s) = hread h s.
+Proof. exact map_of_reads. Qed.
+Print Assumptions C16_storage_views_alias.
+
+(* mutable view := storage of the same size: the view's range holds the source's elements afterwards and every storage
+   that does not overlap that range (other buffers, disjoint ranges of the same buffer) is unchanged *)
+Theorem C16_storage_map_assign : forall h dst src d old, hread h src = Some d -> hread h dst = Some old -> length d = length old ->
+  exists h', map_assign h dst src = Some h' /\ hread h' dst = Some d /\
+             (forall s, disjointb dst s = true -> hread h' s = hread h s).
+Proof. exact map_assign_copies. Qed.
+Print Assumptions C16_storage_map_assign.
+
+(* why the copy must precede the resize: the variant that frees the destination first loses a source that aliases it
+   (owner of 6 elements, dims 3x2, assigned from the const slice [1,3) of itself) and is harmless otherwise *)
+Theorem C16_storage_resize_first_refuted :
+  (hread ex_heap ex_view = Some [12; 13; 14; 15] /\
+   (exists h' t, own_assign ex_heap ex_owner ex_view = Some (h', t) /\ hread h' t = Some [12; 13; 14; 15] /\ s_dims t = [2; 2]) /\
+   own_assign_resize_first ex_heap ex_owner ex_view = None) /\
+  (forall h dst src, s_buf src <> s_buf dst -> (s_buf src < length h)%nat ->
+     own_assign_resize_first h dst src = own_assign h dst src).
+Proof. split; [exact resize_first_loses_aliased_source | exact resize_first_same_when_not_aliased]. Qed.
+Print Assumptions C16_storage_resize_first_refuted.
 
 (* non-vacuity: a concrete rank-3 tensor meets the hypotheses *)
 Example C16_nonvacuous :
